@@ -24,6 +24,22 @@ CHECKS = {
          "forced onto the pure-Python bitstruct backend with outcome digests compared, (d) bitstruct.c vs bitstruct on every format the codec builds.",
     note="Trusted: the reference rules of DESIGN.md 2.3 (assumptions listed in the evidence), Hypothesis. Symmetric misreadings shared by the reference and odxtools are not detectable.",
     design="3/C02"),
+ "C03": dict(
+    technique="reference-built canonical PDUs -> odxtools decode -> odxtools encode, byte equality; exhaustive sweep of one small leaf per description",
+    text="Bounded exploration starting from the wire: canonical PDUs are built by the independent reference encoder from generated "
+         "descriptions; every internal value of one integer leaf of <= 8 (quick) / 12 (thorough) bits is enumerated per description; "
+         "decode then encode must reproduce the PDU, an OdxError from the re-encode counts as violation; repeated through "
+         "DiagLayer.decode / DiagService.encode_request. The compu-method clause is covered by C07's 'roundtrip' clause on exhaustive 8-bit domains.",
+    note="Trusted: reference encoder (canonical PDUs), Hypothesis. PDUs odxtools refuses to decode are outside the statement and only counted.",
+    design="3/C03"),
+ "C08": dict(
+    technique="Hypothesis-generated descriptions; static metadata cross-checked against actual encodings, omission and alternative-value experiments per parameter",
+    text="Bounded exploration: for generated descriptions x accepted assignments (a) get_static_bit_length of message, parameters and "
+         "structures vs the length of actual encodings (message and object encoded alone into a public EncodeState), (b) coded_const_prefix "
+         "is a prefix of the PDU, (c) required_parameters == parameters whose omission makes encode raise, (d) free_parameters == parameters "
+         "for which two different accepted values change the PDU; constants/reserved/matching-request never settable.",
+    note="Trusted: Hypothesis, the generator's injective DOPs. Known finding C08-condensed-mask-static-length is excluded by a counterfactual predicate.",
+    design="3/C08"),
  "C16": dict(
     technique="Hypothesis RuleBasedStateMachine against a list model + exhaustive enumeration of short histories",
     text="Bounded exploration: random long histories (rule-based state machine, model = Python list of the same objects, "
